@@ -3,11 +3,21 @@ pub mod oneshot {
     use vstd::prelude::*;
     #[verifier::external_body] #[verifier::reject_recursive_types(T)]
     pub struct Sender<T> { _p: core::marker::PhantomData<T> }
+    impl<T> Sender<T> {
+        // tokio::sync::oneshot::Sender::send: consumes the sender; delivers `t` or hands it back.
+        // The precondition is the permission encoding of "only the right value goes to the right channel".
+        #[verifier::external_body]
+        pub fn send(self, t: T) -> (r: Result<(), T>)
+            requires super::may_deliver(self, t),
+            ensures r is Err ==> r->Err_0 == t,
+        { unimplemented!() }
+    }
 }
-#[verifier::external_body] pub struct RawResponseOwned { _p: u8 }
 #[verifier::external_body] pub struct SubscriptionReceiver { _p: u8 }
 #[verifier::external_body] pub struct SubscriptionSender { _p: u8 }
-#[verifier::external_body] pub struct Error { _p: u8 }
+#[verifier::external_body] pub struct BoxError { _p: u8 }
+#[verifier::external_body] pub struct EmptyBatchRequest { _p: u8 }
+pub use std::sync::Arc;
 
 // key model: derived Hash/Eq of jsonrpsee's id types, of Range<u64> and of String are structural and deterministic
 #[verifier::external_body]
@@ -24,3 +34,50 @@ pub broadcast proof fn axiom_range_key_model()
 {}
 // rule D8: the hasher is outside every contract
 pub type FxHashMap<K, V> = HashMap<K, V>;
+
+// ---- foreign: serde_json RawValue, http Extensions, jsonrpsee ErrorObject (opaque here) ----
+#[verifier::external_body] pub struct RawValue { _p: u8 }
+impl ToOwned for RawValue { type Owned = Box<RawValue>; #[verifier::external_body] fn to_owned(&self) -> Box<RawValue> { unimplemented!() } }
+impl Clone for Box<RawValue> { #[verifier::external_body] fn clone(&self) -> Self { unimplemented!() } }
+impl RawValue {
+    pub uninterp spec fn text(&self) -> Seq<char>;
+    #[verifier::external_body] pub fn get(&self) -> (r: &str) ensures r@ == self.text() { unimplemented!() }
+}
+#[verifier::external_body] pub struct Extensions { _p: u8 }
+impl Clone for Extensions { #[verifier::external_body] fn clone(&self) -> Self { unimplemented!() } }
+impl Extensions { #[verifier::external_body] pub fn new() -> Extensions { unimplemented!() } }
+#[verifier::external_body] pub struct ErrorObject<'a> { _p: core::marker::PhantomData<&'a u8> }
+impl<'a> Clone for ErrorObject<'a> { #[verifier::external_body] fn clone(&self) -> Self { unimplemented!() } }
+impl<'a> PartialEq for ErrorObject<'a> { #[verifier::external_body] fn eq(&self, o: &Self) -> bool { unimplemented!() } }
+pub type ErrorObjectOwned = ErrorObject<'static>;
+impl<'a> ErrorObject<'a> {
+    pub uninterp spec fn owned(self) -> ErrorObjectOwned;
+    #[verifier::external_body] pub fn into_owned(self) -> (r: ErrorObject<'static>) ensures r == self.owned() { unimplemented!() }
+    pub uninterp spec fn is_placeholder(self) -> bool;
+    // ErrorObject::borrowed(0, "", None): the placeholder used for unanswered batch entries
+    #[verifier::external_body] pub fn borrowed(code: i32, message: &'a str, data: Option<&'a RawValue>) -> (r: ErrorObject<'a>)
+        ensures code == 0 && message@.len() == 0 && data is None ==> r.is_placeholder() { unimplemented!() }
+}
+#[verifier::external_body] pub struct SerdeError { _p: u8 }
+pub mod serde_json {
+    use vstd::prelude::*;
+    pub use super::SerdeError as Error;
+    // result of parsing text `s` as a `T`: an uninterpreted, deterministic function of the input text
+    pub uninterp spec fn parse<T>(s: Seq<char>) -> Result<T, Error>;
+    #[verifier::external_body]
+    pub fn from_str<'a, T>(s: &'a str) -> (r: Result<T, Error>) ensures r == parse::<T>(s@) { unimplemented!() }
+    pub uninterp spec fn json_of<T>(v: T) -> Seq<char>;
+    #[verifier::external_body]
+    pub fn to_string<T>(v: &T) -> (r: Result<String, Error>) ensures r is Ok ==> r->Ok_0@ == json_of(*v) { unimplemented!() }
+}
+// permission to deliver value `v` on one-shot channel `s` (see DESIGN.md §4: ghost events).
+pub uninterp spec fn may_deliver<T>(s: oneshot::Sender<T>, v: T) -> bool;
+// permission to offer message `m` to the buffer behind subscription sink `s` (ghost event `offered`)
+pub uninterp spec fn may_offer(s: SubscriptionSender, m: Box<RawValue>) -> bool;
+impl SubscriptionSender {
+    // contract of the real `SubscriptionSender::send` (core/src/client/mod.rs); its body is verified in unit U05e
+    #[verifier::external_body]
+    pub fn send(&self, msg: Box<RawValue>) -> (r: Result<(), TrySubscriptionSendError>)
+        requires may_offer(*self, msg),
+    { unimplemented!() }
+}
